@@ -210,7 +210,7 @@ def parseUint63 (s : List Nat) : Option Nat :=
 
 /-- the code after the loop -/
 def finish (s : PS) : Except Err Hdr :=
-  if s.clStr ≠ [] then
+  if s.readCL then
     match parseUint63 s.clStr with
     | none => .error .clInvalid
     | some v => .ok { s.hdr with contentLength := (v : Int), headers := hdrSet s.hdr.headers kContentLength s.clStr }
